@@ -320,6 +320,8 @@ type webpDesc struct {
 	noICCP  bool   // VP8X with the flag set but another chunk where ICCP should be
 	body    []byte
 	alpha   bool
+	xscale  byte // VP8 only: 2-bit horizontal / vertical upscaling hints
+	yscale  byte
 	between []byte // not used by well-formed files
 }
 
@@ -332,9 +334,10 @@ func riffChunk(fourcc string, data []byte) []byte {
 	return out
 }
 
-func vp8Header(w, h uint32) []byte {
-	// frame tag: key frame (bit0 = 0), version 0, show_frame 1, first partition size 0
-	return []byte{0x10, 0x00, 0x00, 0x9d, 0x01, 0x2a, byte(w), byte(w >> 8 & 0x3f), byte(h), byte(h >> 8 & 0x3f)}
+func vp8Header(w, h uint32, xscale, yscale byte) []byte {
+	// frame tag: key frame (bit0 = 0), version 0, show_frame 1, first partition size 0;
+	// each 16-bit word is 14 bits of dimension and 2 bits of upscaling hint
+	return []byte{0x10, 0x00, 0x00, 0x9d, 0x01, 0x2a, byte(w), byte(w>>8&0x3f) | xscale<<6, byte(h), byte(h>>8&0x3f) | yscale<<6}
 }
 
 func vp8lHeader(w, h uint32, alpha bool) []byte {
@@ -350,7 +353,7 @@ func (d *webpDesc) build() (all []byte, needed int) {
 	payload.WriteString("WEBP")
 	switch d.kind {
 	case "VP8":
-		payload.Write(riffChunk("VP8 ", append(vp8Header(d.w, d.h), d.body...)))
+		payload.Write(riffChunk("VP8 ", append(vp8Header(d.w, d.h, d.xscale, d.yscale), d.body...)))
 		needed = 12 + 8 + 10
 	case "VP8L":
 		payload.Write(riffChunk("VP8L", append(vp8lHeader(d.w, d.h, d.alpha), d.body...)))
@@ -385,6 +388,7 @@ func randWebpDesc(r *rng, kind string, icc []byte) *webpDesc {
 	switch kind {
 	case "VP8":
 		d.w, d.h = boundary32(r, 14), boundary32(r, 14)
+		d.xscale, d.yscale = byte(r.intn(4)), byte(r.intn(4))
 	case "VP8L":
 		d.w, d.h = boundary32(r, 14), boundary32(r, 14)
 	default:
